@@ -144,6 +144,24 @@ Theorem C15_handler_is_triggers :
 Proof. exact parent_woken_by_triggers. Qed.
 Print Assumptions C15_handler_is_triggers.
 
+(* an UPDATE of a related object: the handler looks at the old and at the new state, so an object that is in the
+   related map wakes the parent also when the update takes it out of the selection *)
+Theorem C15_update_wakes :
+  forall (c : ccfg) (k : cache) (parent : json) (rules : list (option rule)) (m : umap),
+    parent_has_ns c parent -> cache_kinds c k ->
+    get_related_objects c k parent rules = Ok m ->
+    forall o, In o (wire_objects (get_ns parent) m) ->
+    forall other, woken_by_update c parent rules o other = true /\ woken_by_update c parent rules other o = true.
+Proof. exact C15_update_wakes_lemma. Qed.
+Print Assumptions C15_update_wakes.
+
+Theorem C15_update_wakes_meaning :
+  forall c parent rules old new,
+    woken_by_update c parent rules old new =
+    triggers c parent (some_rules rules) old || triggers c parent (some_rules rules) new.
+Proof. exact woken_by_update_spec. Qed.
+Print Assumptions C15_update_wakes_meaning.
+
 (* ---------- 4. asked once ---------- *)
 Theorem C15_customize_once_thm :
   forall (c : ccfg) (steps : list (cache * json)) (e : env),
